@@ -975,9 +975,13 @@ class Prop:
                          'session_down_reason', 'loc_rib_peer_up_wf', 'embed_total', 'needs_rfc8950_iff']
     correspondence_name = ('Model/Bmp.v bmp_encode_all vs packet/src/bmp.rs BmpCodec::encode (harness/hx-mon), '
                            'bytes compared one to one')
-    rule = ('a case is a session: 1..6 messages through one codec into one (possibly pre-filled) buffer; '
-            'non-trivial when it holds an embedded BGP message or TLVs; distinct = distinct '
-            '(message kinds, address families, add-path, frames per UPDATE, body length class)')
+    rule = ('a case is a session (BMP / BGP4MP / TABLE_DUMP_V2: 1..16 items through one codec into one, possibly pre-filled, buffer) '
+            'or one call of a daemon-side converter; about 520 classes are ENUMERATED on every run (tag enum:<class> in the input '
+            'distribution: header matrices, every update form x family x add-path x next-hop form, every prefix length, counts and '
+            'lengths on both sides of every boundary of the code: frame split at 4096 octets, attribute block that leaves room for '
+            'one / no NLRI, 255/256, 65535, every Peer Down reason and SessionDownReason, every capability, scripted snapshot '
+            'histories and RIB contents), the rest is drawn from the seed; non-trivial when it holds an embedded BGP message, '
+            'TLVs, peers or entries; distinct = distinct (kinds, address families, add-path, frames per UPDATE, size class)')
     exhaustive = {'quick': False, 'thorough': False}
     trusted_base = [
         'the BGP encoder is outside this property (C04): embedded BGP messages enter the model as opaque byte strings '
@@ -989,6 +993,7 @@ class Prop:
     assumptions = [
         'caller-supplied per-peer flags do not contain the V bit (true of every header daemon/src/bmp.rs builds); fields have their Rust types (u8/u16/u32/u64, 4/16-octet addresses)',
         'an Initiation TLV value is shorter than 65536 bytes and a message shorter than 2^32 bytes (the daemon sends a version string and the host name)',
+        'NLRI families generated: IPv4/IPv6 unicast and multicast; the other families reach BmpCodec/MrtCodec through the same MP_REACH/MP_UNREACH path, their content is property C04',
     ]
 
     def __init__(self):
